@@ -64,6 +64,30 @@ def replay_case(c):
         perm2 = list(range(1, len(trajs))) + [0]
         cmp("rotated-padded", lambda: _call(padded[perm2], lag, n, sliding))
         cmp("split", lambda: _call(padded[:1], lag, c["n"], sliding) + _call(padded[1:], lag, c["n"], sliding))
+    # relabelling: the count of a pair depends on the pair only, so an order-preserving injection of the state ids
+    # into a large id space (narrow integer dtypes, ids near the top of what 32 / 16 bits can address as i*n+j)
+    # must move every count of the emitted matrix to the image cell and create no other entry
+    if max(s for t in trajs for s in t) <= 2:
+        for tag, amap, dt in (("wide-int32", [65000, 65001, 69999], np.int32), ("wide-int16", [180, 181, 200], np.int16),
+                              ("wide-int64", [65000, 65001, 69999], np.int64)):
+            top = max((s for t in trajs for s in t))
+            nn = amap[top] + 1 if n is None else amap[-1] + 1
+            want = {(amap[i], amap[j]): int(exp[i, j]) for i in range(exp.shape[0]) for j in range(exp.shape[1]) if exp[i, j]}
+            for form, mk in (("ragged", lambda: ra.RaggedArray([np.array([amap[s] for s in t], dtype=dt) for t in trajs])),
+                             ("padded", lambda: np.where(padded >= 0, np.array(amap + [0] * 4)[np.clip(padded, 0, None)], -1).astype(dt))):
+                try:
+                    from enspara.msm.transition_matrices import assigns_to_counts
+                    C = assigns_to_counts(mk(), lag, max_n_states=None if n is None else nn, sliding_window=sliding).tocoo()
+                    got = {}
+                    for i, j, v in zip(C.row.tolist(), C.col.tolist(), C.data.tolist()):
+                        if v:
+                            got[(i, j)] = got.get((i, j), 0) + int(v)
+                    if C.shape != (nn, nn) or got != want:
+                        bad.append(("%s-%s" % (tag, form), {"got": {"shape": list(C.shape), "entries": sorted(got.items())[:12]},
+                                                            "expected": {"shape": [nn, nn], "entries": sorted(want.items())[:12]},
+                                                            "relabelling": amap}))
+                except Exception as ex:
+                    bad.append(("%s-%s" % (tag, form), "raised %s: %s" % (type(ex).__name__, ex)))
     # inputs must not be modified
     for k, t in enumerate(trajs):
         if padded[k, :len(t)].tolist() != list(t) or (padded[k, len(t):] != -1).any():
